@@ -154,6 +154,49 @@ def ffi_finding_key(case, impl, model):
     return None
 
 
+def cl_task_oracle(case, impl, shutdown_clause=True):
+    """C10 stated on the implementation's own log: no request completes twice; `shutdown` is
+    reported only when the task is gone (after an abort); `noconn` only if a waiting phase was ever
+    started; `timeout` only in a step that lets time pass"""
+    tok = case.split(" ")
+    if tok[0] != "cl" or " | " not in impl:
+        return None
+    steps = tok[5].split(",") if tok[5] != "-" else []
+    groups = impl.split(" | ")
+    if len(groups) != len(steps) + 2:
+        return None
+    aborted = False
+    waited = False
+    seen = set()
+    zero_timeout = set()
+    for st, g in zip(steps + ["-"], groups[:-1]):
+        if st.startswith("K"):
+            aborted = True
+        if st[0] in "VF":
+            waited = True
+        if st[0] in "RCTQ":
+            parts = st[1:].split(".")
+            if len(parts) > 4 and parts[4] in ("0", "0s"):
+                zero_timeout.add(parts[1])
+        for e in ([] if g == "-" else g.split(";")):
+            if not e.startswith("done."):
+                continue
+            parts = e.split(".")
+            rid = parts[1]
+            if ".dup" in e or rid in seen:
+                return f"request {rid} completed twice"
+            seen.add(rid)
+            if parts[2] == "shutdown" and not aborted and shutdown_clause:
+                if f"sub.{rid}.err.full" in g:
+                    return "KNOWN:F10-queue-full-shutdown"
+                return f"request {rid} completed with shutdown while the task is alive (step {st})"
+            if parts[2] == "noconn" and not waited:
+                return f"request {rid} failed with no-connection although no waiting phase was ever started"
+            if parts[2] == "timeout" and not st.startswith("A") and rid not in zero_timeout:
+                return f"request {rid} timed out in a step that does not advance time ({st})"
+    return None
+
+
 LIFE_NEXT = {
     "Disabled": {"Connecting", "Shutdown"},
     "Connecting": {"Connected", "WaitFail", "Disabled", "Shutdown"},
@@ -222,7 +265,8 @@ PROPS = {
         suites=[dict(gen="rdr_mbap", n=(3000, 60000),
                      exhaustive="all chunk compositions of 5 short streams (<=10 bytes quick, <=12 thorough); "
                                 "header length fields 0..599 (+3) x protocol id {0,1} quick, all 65536 thorough; "
-                                "max-size frame split points; buffer-boundary streams")],
+                                "max-size frame split points; buffer-boundary streams"),
+                dict(gen="cl_task", n=(500, 40000), corpus=["cl"])],
         level_text="Proof: chunking_independent (for every list of reads the buffered two-state reader yields exactly the "
                    "frames/errors of a whole-stream specification), read_has_space / no_spurious_eof (buffer-full spurious EOF "
                    "unreachable), bad_header_ends_session, frames_roundtrip / no_loss_no_reread are Lean theorems over all byte "
@@ -451,6 +495,7 @@ PROPS = {
                            "Rodbus.C07.range_addresses_fit", "Rodbus.C07.reader_errors_are_protocol_errors",
                            "Rodbus.no_spurious_eof", "Rodbus.C06.no_spurious_eof", "Rodbus.C06.peek_in_bounds"],
         suites=[dict(gen="srv_fuzz", n=(3000, 400000)), dict(gen="rdr_fuzz", n=(3000, 400000)),
+                dict(gen="cl_fuzz", n=(800, 100000)),
                 dict(gen="srv_tcp", n=(800, 50000)), dict(gen="srv_rtu", n=(800, 50000))],
         level_text="Proof for the modelled logic: bounds at the arithmetic/indexing sites mirrored from the Rust code (range_addresses_fit, "
                    "indexed_indices_fit, mbap_length_field_fits, byte_counts_fit, read_buffer_indices_in_bounds, peek_in_bounds, "
@@ -479,7 +524,7 @@ PROPS = {
         audit_modules=["RodbusModel.Audit.C20"],
         required_theorems=["Rodbus.C20.decode_noninterference_server", "Rodbus.C20.level_change_transparent_server",
                            "Rodbus.C20.level_changes_transparent_server"],
-        suites=[dict(gen="dec_srv", n=(150, 6000)), dict(gen="dec_rdr", n=(150, 6000))],
+        suites=[dict(gen="dec_srv", n=(150, 6000)), dict(gen="dec_rdr", n=(150, 6000)), dict(gen="dec_cl", n=(200, 8000))],
         level_text="Proof: decode_noninterference_server (the session model's bytes, application calls, final states and end kind do not depend on "
                    "the decode level: the level only selects log lines), level_change_transparent_server / level_changes_transparent_server (a "
                    "ChangeDecoding command inserted at any position - also in the middle of a partially received frame - changes nothing; no buffered "
@@ -644,5 +689,76 @@ PROPS = {
         rule="ffi_db: seeded op sequences over a small index set interleaved with client reads; ffi_atomic: concurrent whole-block transactions "
              "vs. block reads; distinct = distinct case line",
         assumptions=["loopback TCP"],
+    ),
+    "C10": dict(
+        audit_modules=["RodbusModel.Audit.C10"],
+        required_theorems=["Rodbus.Client.pending_partition", "Rodbus.Client.never_completed_twice", "Rodbus.Client.closed_trace_exactly_once",
+                           "Rodbus.Client.drained_exactly_once", "Rodbus.Client.error_meaning_noconn", "Rodbus.Client.error_meaning_timeout",
+                           "Rodbus.Client.error_meaning_transport", "Rodbus.Client.error_meaning_shutdown_task",
+                           "Rodbus.Client.error_meaning_shutdown_partial", "Rodbus.Client.drain_completes_partial"],
+        suites=[dict(gen="cl_task", n=(1200, 120000), corpus=["cl"])],
+        extra_oracle=cl_task_oracle,
+        level_text="Proof over the client-task model (queue, handles, one-in-flight transaction engine, phases, promises with Drop) for EVERY step "
+                   "sequence, queue capacity, timeout limit, framing and every resolution of tokio::select! races (scheduler coins are universally "
+                   "quantified): pending_partition (per request id: completions + queued + in flight = accepted), never_completed_twice, "
+                   "closed_trace_exactly_once / drained_exactly_once, error_meaning_noconn / _timeout / _transport / _shutdown_task, "
+                   "error_meaning_shutdown_partial (the one exclusion is open finding F10), drain_completes_partial (from states between phases, "
+                   "finitely many timer / phase steps complete everything). Tie: the production ClientLoop behind real Channel / CallbackSession / "
+                   "FfiChannel handles, in-memory transport, paused clock, lock-step; plus an independent oracle on the implementation's log.",
+        level_note="Partial: drain_completes only from states between phases (the full statement needs a termination measure over the reader); "
+                   "async senders waiting for queue capacity are outside the model (the generator keeps submissions below capacity); real thread "
+                   "interleavings inside tokio are represented by scheduler coins (both orders proved; the harness observes whichever occurs). "
+                   "Open finding F10 is reported as KNOWN-FINDING.",
+        technique="Lean 4 invariant proofs over the client-task state machine (all schedules) + model-steered differential event scripts + log oracle",
+        classify=lambda c, i: ["fr=" + c.split(" ")[1], "done=%d" % min(6, i.count("done.")), "end=" + ("abort" if "fin.aborted" in i else "alive")],
+        nontrivial=lambda c, i: "done." in i,
+        finding_key=lambda c, i, sp: "F10-queue-full-shutdown" if "KNOWN:F10" in sp else None,
+        rule="cl_task: event scripts of up to 14 (quick) / 24 (thorough) steps over {submit future-/callback-/try-send-style from any live handle, genuine / perturbed / split / stale / future / duplicate / unsolicited replies, garbage, read error, EOF, write error, enable, disable, set-decode, shutdown, clone / drop handle, abort, new session, wait-enabled and fail-for phases, time advances to deadline-1 / deadline / deadline+1}, steered by the model state after each prefix so that replies target the request really in flight; queue capacities 1,2,4,16; timeout limits 0..3; MBAP (3/4) and RTU; plus the corpus of 2200 deterministic and 300 scheduler-dependent scripts validated against the binary; a script whose outcome depends on tokio::select! polling order is accepted if the implementation's output is one of the model's outcomes over all scheduler choices; distinct = distinct case line; non-trivial = at least one request completed",
+        assumptions=["virtual (paused) time; each script step settles fully before the next (lock-step)"],
+    ),
+    "C11": dict(
+        audit_modules=["RodbusModel.Audit.C11"],
+        required_theorems=["Rodbus.Client.one_outstanding", "Rodbus.Client.fifo_order", "Rodbus.Client.txid_formula", "Rodbus.Client.txid_next_wraps",
+                           "Rodbus.Client.consecutive_differ", "Rodbus.Client.mismatch_discarded", "Rodbus.Client.idle_dropped",
+                           "Rodbus.Client.stale_frame_never_accepted", "Rodbus.Client.stale_frame_never_accepted_mbap"],
+        suites=[dict(gen="cl_task", n=(1200, 120000), corpus=["cl"]), dict(gen="cl_txwrap", n=(0, 1))],
+        level_text="Proof (all step sequences, all schedules): one_outstanding / write_only_when_idle, fifo_order (the wire log is the dequeued "
+                   "requests in submission order), txid_formula (the k-th dequeued request carries k mod 65536, unbounded k), txid_next_wraps, "
+                   "consecutive_differ, mismatch_discarded (+ at the deadline), idle_dropped / idle_frame_no_effect, stale_frame_never_accepted "
+                   "(after the repair of F16: once a request is transmitted no frame received earlier is left in the reader, for every schedule). "
+                   "Tie: the cl_task scripts contain stale (by 1, 2, 32768, 65535), future, duplicate and unsolicited frames, replies coalesced with "
+                   "the next id, at every timing; thorough adds a run across the 65535 -> 0 wrap (70000 ids).",
+        level_note="Bytes delivered to the socket but not yet read by the client are indistinguishable from bytes arriving later; the theorem is "
+                   "about frames received (read into the buffer). Finding F16 (a buffered frame with the next id answered the next request when "
+                   "the queue won the select! race) is fixed.",
+        technique="Lean 4 invariant proofs (transaction-id formula, discard lemmas) + model-steered differential scripts with stale/future/duplicate frames",
+        classify=lambda c, i: ["fr=" + c.split(" ")[1], "tx=%d" % min(6, i.count("tx."))],
+        nontrivial=lambda c, i: "tx." in i,
+        finding_key=no_key,
+        rule="cl_task: event scripts of up to 14 (quick) / 24 (thorough) steps over {submit future-/callback-/try-send-style from any live handle, genuine / perturbed / split / stale / future / duplicate / unsolicited replies, garbage, read error, EOF, write error, enable, disable, set-decode, shutdown, clone / drop handle, abort, new session, wait-enabled and fail-for phases, time advances to deadline-1 / deadline / deadline+1}, steered by the model state after each prefix so that replies target the request really in flight; queue capacities 1,2,4,16; timeout limits 0..3; MBAP (3/4) and RTU; plus the corpus of 2200 deterministic and 300 scheduler-dependent scripts validated against the binary; a script whose outcome depends on tokio::select! polling order is accepted if the implementation's output is one of the model's outcomes over all scheduler choices; distinct = distinct case line; non-trivial = at least one request completed",
+        assumptions=["virtual time, lock-step"],
+    ),
+    "C12": dict(
+        audit_modules=["RodbusModel.Audit.C12"],
+        required_theorems=["Rodbus.Client.timeout_iff", "Rodbus.Client.timeout_only_at_deadline", "Rodbus.Client.before_deadline",
+                           "Rodbus.Client.timeout_keeps_connection", "Rodbus.Client.counter_exact", "Rodbus.Client.counter_restarts_per_session",
+                           "Rodbus.Client.counter_no_limit", "Rodbus.Client.deadline_is_write_time_plus_timeout"],
+        suites=[dict(gen="cl_task", n=(1200, 120000), corpus=["cl"])],
+        extra_oracle=lambda c, i: cl_task_oracle(c, i, shutdown_clause=False),
+        level_text="Proof (virtual time as Nat, all step sequences and schedules): deadline_is_write_time_plus_timeout, timeout_iff "
+                   "(a transmitted request times out at exactly t_tx + timeout iff no matching complete frame and no transport / framing error was "
+                   "delivered before; otherwise it completes at the delivery time with that result; at the exact deadline both outcomes of the "
+                   "select! race are admitted and nowhere else), timeout_keeps_connection, counter_exact (the session ends with MaxTimeouts "
+                   "exactly at the first point where the last N outcomes are timeouts, for every outcome sequence and N >= 1), counter_no_limit, "
+                   "counter_restarts_per_session. Tie: cl_task scripts advance the paused clock to deadline-1, deadline, deadline+1 and split "
+                   "replies across the deadline; corpus witness for F12.",
+        level_note="Hypothesis made explicit: now + timeout representable - finding F12 (Duration::MAX panicked the task) is fixed by a far-future "
+                   "fallback, which the model treats as 'never fires within a script'.",
+        technique="Lean 4 proofs over the timed client-task model + differential scripts around the deadline in paused time",
+        classify=lambda c, i: ["timeouts=%d" % min(5, i.count(".timeout.")), "maxto" if "end.maxto" in i else "no-maxto"],
+        nontrivial=lambda c, i: "done." in i,
+        finding_key=lambda c, i, sp: "F10-queue-full-shutdown" if "KNOWN:F10" in sp else None,
+        rule="cl_task: event scripts of up to 14 (quick) / 24 (thorough) steps over {submit future-/callback-/try-send-style from any live handle, genuine / perturbed / split / stale / future / duplicate / unsolicited replies, garbage, read error, EOF, write error, enable, disable, set-decode, shutdown, clone / drop handle, abort, new session, wait-enabled and fail-for phases, time advances to deadline-1 / deadline / deadline+1}, steered by the model state after each prefix so that replies target the request really in flight; queue capacities 1,2,4,16; timeout limits 0..3; MBAP (3/4) and RTU; plus the corpus of 2200 deterministic and 300 scheduler-dependent scripts validated against the binary; a script whose outcome depends on tokio::select! polling order is accepted if the implementation's output is one of the model's outcomes over all scheduler choices; distinct = distinct case line; non-trivial = at least one request completed",
+        assumptions=["virtual time, lock-step"],
     ),
 }
